@@ -638,6 +638,32 @@ def collection_programs(g, rng, reps):
             for body, out in [([P('SOME')], ('option', vt)), ([P('DUP'), P('PAIR')], ('pair', vt, vt)), ([P('DROP'), P('UNIT')], ('unit',)), ([], vt)]:
                 val = g.gen_value(lt)
                 progs.append(([P('PUSH', gen_interp.ty_mich(lt), val), P('MAP', body)], [('list', out)], gen_env(rng)))
+    # comb twins: the same leaf types in the same order under different nestings (a, b, c, d / (a, b), c, d / a, (b, c), d), built at run
+    # time by PAIR n one after the other in one process — the type of a comb is a function of its items, not of their flattening
+    leaf_ts = [('int',), ('nat',), ('string',), ('bool',), ('bytes',), ('mutez',)]
+    for _ in range(6 * reps):
+        n = rng.choice([3, 4, 4, 5])
+        ts = [rng.choice(leaf_ts) for _ in range(n)]
+        pushes = [P('PUSH', gen_interp.ty_mich(t), g.gen_value(t, depth=0)) for t in reversed(ts)]     # first leaf ends on top
+
+        def comb_ty(items):
+            t = items[-1]
+            for x in reversed(items[:-1]):
+                t = ('pair', x, t)
+            return t
+        flat = (pushes + [P('PAIR', {'int': str(n)})], [comb_ty(ts)])
+        k = rng.randrange(0, n - 2)                  # pair up leaves k, k+1 first (a non-last position), then comb the rest
+        inner = ('pair', ts[k], ts[k + 1])
+        code = list(pushes)
+        if k:
+            code.append(P('DIP', {'int': str(k)}, [P('PAIR')]))
+        else:
+            code.append(P('PAIR'))
+        code.append(P('PAIR', {'int': str(n - 1)}))
+        nested = (code, [comb_ty(ts[:k] + [inner] + ts[k + 2:])])
+        for a, b in ((flat, nested), (nested, flat)) if rng.random() < 0.5 else ((nested, flat),):
+            progs.append((a[0], a[1], gen_env(rng)))
+            progs.append((b[0], b[1], gen_env(rng)))
     return progs
 
 
